@@ -965,37 +965,78 @@ def _additive_self(t, h, l, depth=0):
 @rule("R-HEADER-PRECISION", ["C15", "C08"])
 def r_header_precision(cx):
     """The geometry of a Gravsoft grid (boundaries and spacing) is what the file says, to double precision: in
-    `gravsoft_grid_reader` every number that is read from the text and stored as f64 is parsed as f64 - a value that went
-    through f32 on its way (parse::<f32>, or a narrowing cast) moves the boundaries by up to 4e-6 degrees, so that points
-    on the boundary fall outside and node positions no longer coincide with the nodes."""
+    `gravsoft_grid_reader` (and its closures) the numbers of the text are parsed as f64, and what is stored as f64 has not
+    been through f32 on its way (parse::<f32>, or a narrowing cast) - that would move the boundaries by up to 4e-6
+    degrees, so that points on the boundary fall outside and node positions no longer coincide with the nodes."""
     name = "grid::gravsoft_grid_reader"
     if not cx.f.has_fn(name):
         cx.ob("R-HEADER-PRECISION", "anchor", False, "anchor-missing: %s" % name)
         return
+    n = 0
+    for fn in sorted(cx.f.lib["fns"]):
+        if not (fn == name or fn.startswith(name + "::{closure")):
+            continue
+        f = cx.f.fn(fn)
+        for bb, t in f.calls():
+            c = f.callee(t) or ""
+            full = t.get("callee_full") or ""
+            if c.endswith("str>::parse") and full.rsplit("parse::<", 1)[-1].rstrip(">") in ("f32", "f64"):
+                n += 1
+                ok = full.endswith("parse::<f64>")
+                cx.ob("R-HEADER-PRECISION", "gravsoft/parse%d" % (n - 1), ok,
+                      "the numbers of a Gravsoft file are parsed as f64" if ok else
+                      "gravsoft_grid_reader parses the numbers of the file as f32: boundaries and spacing of the grid are "
+                      "rounded to single precision", cx.where(t["span"]))
+            if c.endswith("Vec::<T, A>::push") and full.startswith("std::vec::Vec::<f64>") and len(f.arg_terms(bb)) > 1:
+                narrow = []
+                mir.walk(f.arg_terms(bb)[1], lambda y: (narrow.append(1) if y[0] == "cast" and len(y) > 3 and str(y[3]) == "f32" else None) or True)
+                if narrow:
+                    cx.ob("R-HEADER-PRECISION", "gravsoft/narrowed", False,
+                          "gravsoft_grid_reader stores a number as f64 that went through a narrowing cast to f32: boundaries "
+                          "and spacing of the grid are rounded to single precision", cx.where(t["span"]))
+    cx.count("R-HEADER-PRECISION", "header_stores", n)
+
+
+@rule("R-GRAVSOFT-ANGULAR", ["C15", "C08"])
+def r_gravsoft_angular(cx):
+    """A Gravsoft grid whose boundaries are angles (degrees) has its geometry converted to radians and its node values
+    to the internal units; only a grid in projected coordinates is left as it is. Angles written in a file go up to a full
+    circle (longitudes 0..360): the test by which normalize_gravsoft_grid_values takes a boundary for a projected
+    coordinate (`|h| > T`, early return) leaves every |h| <= 360 on the angular side."""
+    name = "grid::normalize_gravsoft_grid_values"
+    if not cx.f.has_fn(name):
+        cx.ob("R-GRAVSOFT-ANGULAR", "anchor", False, "anchor-missing: %s" % name)
+        return
     f = cx.f.fn(name)
     n = 0
-    for bb, t in f.calls():
-        if not ((f.callee(t) or "").endswith("Vec::<T, A>::push") and (t.get("callee_full") or "").startswith("std::vec::Vec::<f64>")):
+    for bb in sorted(f.reachable()):
+        sw = f.term(bb)
+        if sw["k"] != "switch":
             continue
-        a = f.arg_terms(bb)
-        if len(a) < 2:
+        c = mir.strip_refs(f.operand(sw["discr"], f.end_point(bb)))
+        if not (c[0] == "bin" and c[1] in ("Gt", "Ge", "Lt", "Le")):
             continue
-        parses, narrow = [], []
-
-        def vis(y):
-            if y[0] == "call" and isinstance(y[1], str) and y[1].endswith("str>::parse") and isinstance(y[3], int):
-                parses.append((f.term(y[3]).get("callee_full") or ""))
-            if y[0] == "cast" and len(y) > 3 and str(y[3]) == "f32":
-                narrow.append(1)
-            return True
-        mir.walk(a[1], vis)
-        if not parses:
+        l, r = mir.strip_refs(c[2]), mir.strip_refs(c[3])
+        op = c[1]
+        if l[0] == "const" and r[0] != "const":
+            l, r = r, l
+            op = {"Gt": "Lt", "Ge": "Le", "Lt": "Gt", "Le": "Ge"}[op]
+        if not (l[0] == "call" and isinstance(l[1], str) and l[1].endswith("::abs") and r[0] == "const" and
+                isinstance(r[2], tuple) and r[2][0] == "float"):
+            continue
+        T = float(r[2][1])
+        # the side on which |h| is large must be the one that returns early
+        big = sw["otherwise"] if op in ("Gt", "Ge") else (sw["targets"][0][1] if sw["targets"] else None)
+        if big is None or f.innermost_loop(bb) is None:
+            continue
+        lp = f.innermost_loop(bb)
+        if lp.header in f.reach_from([big], avoid=[]):
             continue
         n += 1
-        ok = all(p.endswith("parse::<f64>") for p in parses) and not narrow
-        cx.ob("R-HEADER-PRECISION", "gravsoft/header%d" % (n - 1), ok,
-              "the header numbers are parsed and kept as f64" if ok else
-              "gravsoft_grid_reader stores a number as f64 that was read through f32 (%s): boundaries and spacing of the grid "
-              "are rounded to single precision" % (", ".join(p.rsplit("::", 1)[-1] for p in parses) + (" with a narrowing cast" if narrow else "")),
-              cx.where(t["span"]))
-    cx.count("R-HEADER-PRECISION", "header_stores", n)
+        ok = (op in ("Gt", "Le") and T >= 360.0) or (op in ("Ge", "Lt") and T > 360.0)
+        cx.ob("R-GRAVSOFT-ANGULAR", "threshold%d" % (n - 1), ok,
+              "boundaries up to a full circle (|h| <= 360) count as angles (threshold %s)" % T if ok else
+              "normalize_gravsoft_grid_values takes a boundary with |h| %s %s for a projected coordinate: a grid in degrees that "
+              "reaches %s (longitudes 0..360, say) is not converted to radians, and its corrections are used as if in "
+              "metres" % (">" if op in ("Gt", "Le") else ">=", T, "beyond %s" % T if T < 360 else "360"), cx.where(sw["span"]))
+    cx.count("R-GRAVSOFT-ANGULAR", "thresholds", n)
